@@ -117,6 +117,14 @@ func (g *Gen) AnyRef(t *rapid.T) Ref {
 }
 
 func longName(n int, salt int) string {
+	if salt == 2 {
+		// n bytes, but far fewer characters: the limit is one of bytes
+		s := fmt.Sprintf("U%d_", n)
+		for len(s)+2 <= n {
+			s += "\u00e9"
+		}
+		return s + strings.Repeat("x", n-len(s))
+	}
 	s := fmt.Sprintf("L%d_%d_", n, salt)
 	if len(s) >= n {
 		return strings.Repeat("x", n)
@@ -380,6 +388,10 @@ func (g *Gen) Actions(fail func(t *rapid.T, err error)) map[string]func(*rapid.T
 				tn = g.OldName(t, td.N)
 			} else {
 				tn = g.NewName(t, td.N)
+			}
+			if fd.N != nil && fd.N.Alive && fd.N.Parent != nil && pct(t, 6, "ontoOwnDir?") {
+				// the four roles of a RENAME coincide: an entry of directory D is moved over D itself
+				td, tn = LiveRef(fd.N.Parent), fd.N.Name
 			}
 			if !g.Cfg.CrossDirDirRename && x.RenameIsKnownFinding(fd.N, fn, td.N) {
 				// KF2/KF3: moving a directory to another directory is a known finding; keep it in its parent
